@@ -78,7 +78,7 @@ def run_matrix(case, res):
     import sparseSpACE.Grid as G
     rng = random.Random(case["seed"])
     d = rng.choice([1, 2, 2, 3])
-    large = rng.random() < 0.04
+    large = rng.random() < 0.08
     X, y, kind = gen_regression_data(rng, d, large)
     if large:
         res.count("large_data_set")
